@@ -102,7 +102,7 @@ DUP_BODY = {
 # the specification's name of a declaration where it differs from the spelled name: a data type that is spelled like a
 # function / program lives in another name space
 SPEC_NAME = {}
-SPACE = {"C": "fb", "U": "fb", "V": "fb", "W": "fb", "CX": "fb", "F": "pou", "M": "pou", "MF": "pou", "G": "pou"}     # everything else: "data"
+SPACE = {"C": "fb", "U": "fb", "V": "fb", "W": "fb", "CX": "fb", "XT": "fb", "F": "pou", "M": "pou", "MF": "pou", "G": "pou"}     # everything else: "data"
 
 
 def lex_fault(text):
